@@ -33,7 +33,7 @@ Definition wfs : list (option fsdisk) :=
 Definition wpar : parity := [map (fun i => PJunk (N.of_nat (S i))) (seq 0 8)].
 Definition wo : sopts := mkSO false false 100.
 Definition wrun (m : iomode) (k : nat) : wrun :=
-  sync_loop_w hz 1024 1 wo 7 wfs (fun _ => []) (fun pos l => if Nat.eqb pos k then WEio else WOk) m (fun _ => 1)
+  sync_loop_w hz 1024 1 wo 7 wfs (fun _ => []) (fun pos l => if Nat.eqb pos k then WEio else WOk) m (fun _ _ => 1)
               (seq 0 8) None 0 [] 0 wc wpar 0 0 0.
 
 Lemma wc_no_false_protection : no_false_protection wc wpar.
@@ -71,7 +71,7 @@ Proof. vm_compute. repeat split. Qed.
 Theorem write_error_safe_refuted : ~ write_error_safe_stmt.
 Proof.
   intro H.
-  destruct (H hz 1024%N 1 wo 7%N wfs (fun _ => []) (fun pos l => if Nat.eqb pos 3 then WEio else WOk) (Threaded 3) (fun _ => 1)
+  destruct (H hz 1024%N 1 wo 7%N wfs (fun _ => []) (fun pos l => if Nat.eqb pos 3 then WEio else WOk) (Threaded 3) (fun _ _ => 1)
               (seq 0 8) None wc wpar wc_no_false_protection) as [_ NF].
   (* only closed terms are evaluated, by vm_compute; the hypotheses are matched syntactically *)
   match type of NF with
@@ -90,7 +90,7 @@ Example read_error_safe_nonvacuous :
 Proof. vm_compute. repeat split. Qed.
 Example error_limit_nonvacuous :
   let r := sync_loop_w hz 1024 1 (mkSO false false 2) 7 wfs (fun p => if Nat.eqb p 1 || Nat.eqb p 4 then [Some RdIoCont] else [])
-                       (fun _ _ => WOk) (Threaded 3) (fun _ => 1) (seq 0 8) None 0 [] 0 wc wpar 0 0 0 in
+                       (fun _ _ => WOk) (Threaded 3) (fun _ _ => 1) (seq 0 8) None 0 [] 0 wc wpar 0 0 0 in
   ro_bailed (w_run r) = true /\ ro_nio (w_run r) = 2 /\ recorded_healthy (ro_content (w_run r)) 5 = false.
 Proof. vm_compute. repeat split. Qed.
 Example scrub_read_error_nonvacuous :
